@@ -259,3 +259,92 @@ def leaves(x):
 
 def map_leaves(f, x):
     return lift1(f, x)
+
+
+def cond_subs(c, mapping):
+    """substitute symbols inside a condition (comparison atoms are re-normalised, so `s1 > r` becomes `s > r` under s1:=s)"""
+    def go(t):
+        if t[0] == 'cmp':
+            a, b = N.subs(N.nf_from_key(t[1]), mapping), N.subs(N.nf_from_key(t[2]), mapping)
+            out = None
+            for o in sorted(t[3]):
+                x = Cond.cmp({LT: '<', EQ: '==', GT: '>'}[o], a, b)
+                out = x if out is None else (out | x)
+            return out if out is not None else Cond.false()
+        if t[0] == 'not':
+            return ~go(t[1])
+        if t[0] == 'and':
+            return go(t[1]) & go(t[2])
+        return Cond(t)
+    return go(c.t)
+
+
+def subs(x, mapping):
+    """substitute symbols in the leaves and the conditions of a piecewise term"""
+    if not mapping:
+        return x
+    if isinstance(x, Ite):
+        return ite(cond_subs(x.c, mapping), subs(x.a, mapping), subs(x.b, mapping))
+    return N.subs(x, mapping)
+
+
+def equalities(decisions):
+    """{symbol: NF} implied by the branch decisions of one explored path: a decision `a == b` taken as True (or `a != b`
+    taken as False) where one side is a bare symbol lets that symbol be replaced by the other side on this path"""
+    mapping = {}
+    for c, taken, _ in decisions:
+        t = c.t
+        if t[0] == 'not':
+            t, taken = t[1], not taken
+        if t[0] != 'cmp':
+            continue
+        if not ((t[3] == frozenset((EQ,)) and taken) or (t[3] == frozenset((LT, GT)) and not taken)):
+            continue
+        a, b = N.nf_from_key(t[1]), N.nf_from_key(t[2])
+        a, b = N.subs(a, mapping) if mapping else a, N.subs(b, mapping) if mapping else b
+
+        def bare(x):
+            ats = list(x.all_atoms())
+            return ats[0][1] if len(ats) == 1 and ats[0][0] == 'sym' and x.equals(N.sym(ats[0][1])) else None
+        sa, sb = bare(a), bare(b)
+        # prefer to eliminate the symbol with the longer name (x1, x_first, x2 are the history worlds' extra symbols)
+        if sa is not None and sb is not None:
+            if len(sb) > len(sa):
+                sa, a, b = sb, b, a
+            mapping[sa] = b
+        elif sa is not None and sa not in b.symbols():
+            mapping[sa] = b
+        elif sb is not None and sb not in a.symbols():
+            mapping[sb] = a
+    return mapping
+
+
+def assume(x, facts):
+    """simplify a piecewise term under facts [(Cond, bool)]: a branch condition that is (or is implied / excluded by) a fact
+    is resolved.  Only comparison atoms on the same operand pair and identical flags are related; anything else is kept."""
+    if not isinstance(x, Ite) or not facts:
+        return x
+
+    def truth(c):
+        t = c.t
+        for f, val in facts:
+            ft = f.t
+            if ft == t:
+                return val
+            if ft[0] == 'not' and ft[1] == t:
+                return not val
+            if t[0] == 'not' and t[1] == ft:
+                return not val
+            if ft[0] == 'cmp' and t[0] == 'cmp' and ft[1:3] == t[1:3]:
+                outs = ft[3] if val else (ALL - ft[3])
+                if outs <= t[3]:
+                    return True
+                if not (outs & t[3]):
+                    return False
+        return None
+    b = truth(x.c)
+    if b is True:
+        return assume(x.a, facts)
+    if b is False:
+        return assume(x.b, facts)
+    return ite(x.c, assume(x.a, facts), assume(x.b, facts))
